@@ -47,8 +47,9 @@ Record meshgl := mkMesh {
 
 (* Answers the model cannot compute from the abstraction (geometry/topology):
    whether IsManifold() holds after CreateHalfedges, and how many faces
-   halfedge_ holds when SortGeometry/GatherFaces runs. *)
-Record oracle := mkOracle { manifoldOK : bool; nFaceSort : Z }.
+   halfedge_ holds when SortGeometry/GatherFaces runs (CleanupTopology's DedupeEdge
+   can ADD faces), and whether the ExecutionContext was cancelled at entry. *)
+Record oracle := mkOracle { manifoldOK : bool; nFaceSort : Z; cancelled : bool }.
 
 Definition u32 (x : Z) : Z := x mod 2 ^ 32.
 Definition toI (w : bool) (x : Z) : Z := x mod (if w then 2 ^ 64 else 2 ^ 32).
@@ -116,7 +117,9 @@ Inductive item :=
 | IRunLoop
 | ITriLoop (c : cmpk) (e : error)     (* triangle loop with its in-loop rung *)
 | ICreateHalfedges (e : error)        (* CreateHalfedges; !IsManifold() -> e *)
-| IPost.                              (* CleanupTopology .. SortGeometry: later users *)
+| IPost (keepsTangents : bool)        (* CleanupTopology .. SortGeometry: later users; the flag says whether
+                                         DedupeEdge keeps halfedgeTangent_ as long as halfedge_ when it adds faces *)
+| ICancelGate (e : error).            (* if (IsCancelled(ctx)) { MakeEmpty(e); return; } at entry *)
 
 Inductive verdict := Done (e : error) | Accepted.
 
@@ -250,10 +253,13 @@ Definition corner_accesses (m : meshgl) (pv : Z * Z) : list access :=
   [Acc AVertPos (snd pv) (numVertI m);
    AccRange AProperties (np m * fst pv) (np m * fst pv + np m) (propsLen m)].
 
-Definition post_accesses (m : meshgl) (o : oracle) (s : st) : list access :=
+Definition tangents_at_sort (m : meshgl) (o : oracle) (s : st) (kp : bool) : Z :=
+  if kp && (zlen (kept s) <? nFaceSort o) then 3 * nFaceSort o else tanLen m / 4.
+
+Definition post_accesses (m : meshgl) (o : oracle) (s : st) (kp : bool) : list access :=
   flat_map (fun t => flat_map (corner_accesses m) (combine (fst t) (snd t))) (kept s) ++
   (* GatherFaces/ReindexFace (sort.cpp:72): oldHalfedgeTangent[3*oldFace+i] when non-empty *)
-  (if tanLen m / 4 =? 0 then [] else [AccRange ATangentInternal 0 (3 * nFaceSort o) (tanLen m / 4)]).
+  (if tanLen m / 4 =? 0 then [] else [AccRange ATangentInternal 0 (3 * nFaceSort o) (tangents_at_sort m o s kp)]).
 
 (* one table item: (error if it returns, new state, subscripts performed) *)
 Definition step (it : item) (m : meshgl) (o : oracle) (s : st) : option error * st * list access :=
@@ -275,7 +281,8 @@ Definition step (it : item) (m : meshgl) (o : oracle) (s : st) : option error * 
     let '(fired, k, a) := tri_loop c m s 0 (Z.to_nat (numTri m)) [] in
     (if fired then Some e else None, mkSt (ri s) (p2v s) (p2vOn s) k, a)
   | ICreateHalfedges e => (if manifoldOK o then None else Some e, s, [])
-  | IPost => (None, s, post_accesses m o s)
+  | IPost kp => (None, s, post_accesses m o s kp)
+  | ICancelGate e => (if cancelled o then Some e else None, s, [])
   end.
 
 Fixpoint run (t : list item) (m : meshgl) (o : oracle) (s : st) : verdict * list access :=
@@ -326,7 +333,7 @@ Definition learn (f : facts) (it : item) : facts :=
   end.
 
 (* what each access-bearing item needs to have been established before it *)
-Definition needs (f : facts) (it : item) : bool :=
+Definition needs (strong : bool) (f : facts) (it : item) : bool :=
   match it with
   | IRung _ _ => true
   | IComputeCounts => fNumProp f
@@ -337,38 +344,42 @@ Definition needs (f : facts) (it : item) : bool :=
   | IRunLoop => fShape f && fFaceLen f && fTransLen f
   | ITriLoop c _ => fMergeGe f && match c with CGe => true | CGt => false end
   | ICreateHalfedges _ => true
-  | IPost => fTanLen f && fTriDone f && fNumProp f
+  | IPost kp => fTanLen f && fTriDone f && fNumProp f && (negb strong || kp)
+  | ICancelGate _ => true
   end.
 
-Fixpoint safe_from (f : facts) (t : list item) : bool :=
+Fixpoint safe_from (strong : bool) (f : facts) (t : list item) : bool :=
   match t with
   | [] => true
-  | it :: t' => needs f it && safe_from (learn f it) t'
+  | it :: t' => needs strong f it && safe_from strong (learn f it) t'
   end.
 
-Definition ladder_table_safe (t : list item) : bool := safe_from facts0 t.
+(* safe under the hypothesis nFaceSort <= NumTri on the oracle *)
+Definition ladder_table_safe (t : list item) : bool := safe_from false facts0 t.
+(* safe for EVERY face count at sort time: additionally DedupeEdge keeps the tangents in step *)
+Definition ladder_table_safe_strong (t : list item) : bool := safe_from true facts0 t.
 
 (* which access-bearing items lack a prerequisite (for the check's report) *)
 Fixpoint unsafe_items (f : facts) (t : list item) : list item :=
   match t with
   | [] => []
-  | it :: t' => (if needs f it then [] else [it]) ++ unsafe_items (learn f it) t'
+  | it :: t' => (if needs true f it then [] else [it]) ++ unsafe_items (learn f it) t'
   end.
 
 (* ---- the tables: pinned tree as read on 2026-09-23, and with the proposed
    fixes fix_C09_1 (two rungs) + fix_C09_2 (numProp rung first) applied ---- *)
 Definition pinned_table : list item :=
-  [ IComputeCounts;
+  [ ICancelGate Cancelled; IComputeCounts;
     IRung REmptyBoth NoError; IRung RTooSmall NotManifold; IRung RNumPropLt3 MissingPositionProperties;
     IRung RMergeLenNe MergeVectorsDifferentLengths; IRung RTransformLen TransformWrongLength;
     IRung RRunIndexLen RunIndexWrongLength; IRung RFaceIDLen FaceIDWrongLength;
     IRung RVertFinite NonFiniteVertex; IRung RTransformFinite InvalidConstruction;
     IRung RTangentFinite InvalidConstruction;
     IMergeLoop CGe MergeIndexOutOfBounds; ICopyVerts; ICopyTangents; INormaliseRuns; IRunLoop;
-    ITriLoop CGe VertexOutOfBounds; ICreateHalfedges NotManifold; IPost ].
+    ITriLoop CGe VertexOutOfBounds; ICreateHalfedges NotManifold; IPost false ].
 
 Definition patched_table : list item :=
-  [ IRung RNumPropLt3 MissingPositionProperties; IComputeCounts;
+  [ ICancelGate Cancelled; IRung RNumPropLt3 MissingPositionProperties; IComputeCounts;
     IRung REmptyBoth NoError; IRung RTooSmall NotManifold;
     IRung RMergeLenNe MergeVectorsDifferentLengths; IRung RTransformLen TransformWrongLength;
     IRung RRunIndexLen RunIndexWrongLength; IRung RFaceIDLen FaceIDWrongLength;
@@ -377,7 +388,19 @@ Definition patched_table : list item :=
     IRung RTangentFinite InvalidConstruction;
     IMergeLoop CGe MergeIndexOutOfBounds; ICopyVerts; ICopyTangents; INormaliseRuns;
     IRung RRunIndexShape RunIndexWrongLength; IRunLoop;
-    ITriLoop CGe VertexOutOfBounds; ICreateHalfedges NotManifold; IPost ].
+    ITriLoop CGe VertexOutOfBounds; ICreateHalfedges NotManifold; IPost false ].
+
+(* ... and with hooks/fix_C09_14.patch (DedupeEdge resizes halfedgeTangent_ with halfedge_) *)
+Definition patched14_table : list item :=
+  map (fun it => match it with IPost _ => IPost true | _ => it end) patched_table.
+
+(* a 2 x 3 torus grid: every vertex is joined to its tube neighbour by two edges, so
+   DedupeEdge adds 6 faces to the 12 imported ones; with tangents of the right length *)
+Definition torus_tris : list Z :=
+  [0;3;4; 0;4;1; 1;4;5; 1;5;2; 2;5;3; 2;3;0; 3;0;1; 3;1;4; 4;1;2; 4;2;5; 5;2;0; 5;0;3].
+Definition w_torus : meshgl :=
+  mkMesh true 3 18 true torus_tris [] [] [] 0 0 true 0 0 144 true.
+Definition o_torus : oracle := mkOracle true 18 false.
 
 (* well-formedness of the abstraction and the size bound the theorems carry *)
 Definition wf (m : meshgl) : Prop :=
@@ -404,4 +427,4 @@ Definition w_runs_noindex : meshgl :=
 (* numProp = 0: NumVert() divides by zero *)
 Definition w_numprop0 : meshgl :=
   mkMesh true 0 24 true cube_tris [] [] [] 0 0 true 0 0 0 true.
-Definition o_cube : oracle := mkOracle true 12.
+Definition o_cube : oracle := mkOracle true 12 false.
